@@ -18,9 +18,10 @@ class Truncated(Exception):
 
 
 class BitWriter:
-    def __init__(self):
+    def __init__(self, align_leaves=False):
         self.acc = 0
         self.n = 0
+        self.align_leaves = align_leaves
         self.counts = []  # (bit position, value, kind) of every u32 count / u8 flag written
 
     def mark(self, kind, value):
@@ -66,6 +67,15 @@ def bits_f64(b):
 
 
 def enc(sch, t, v, w):
+    k = t[0]
+    if w.align_leaves and k in ("u", "i", "f32", "f64", "enum"):
+        _enc(sch, t, v, w)
+        w.n = (w.n + 7) // 8 * 8
+        return
+    _enc(sch, t, v, w)
+
+
+def _enc(sch, t, v, w):
     k = t[0]
     if k == "u":
         w.word(v, t[1])
@@ -156,6 +166,14 @@ def patch_bits(data, pos, width, value):
     mask = ((1 << width) - 1) << pos
     acc = (acc & ~mask) | ((value << pos) & mask)
     return acc.to_bytes(len(data), "little")
+
+
+def encode_leaf_aligned(sch, name, v):
+    """DEFECT MODEL (known finding cpp-dynamic-encode-unpacked), not the wire format: every scalar
+    leaf is encoded on its own and padded to a whole number of bytes, containers concatenate."""
+    w = BitWriter(align_leaves=True)
+    enc(sch, ("struct", name), v, w)
+    return w.bytes()
 
 
 def bitsize(sch, name, v):
